@@ -11,6 +11,8 @@ import (
 	"strconv"
 	"sync"
 	"sync/atomic"
+	"syscall"
+	"time"
 
 	"verif/internal/ev"
 )
@@ -80,8 +82,71 @@ func main() {
 			i++
 		}
 	}
+	curCtx = c
+	go stallWatch(c)
 	def.fn(c)
+	c.Set("max_case_cpu_s", float64(atomic.LoadInt64(&maxCaseTicks))/100)
 	os.Exit(c.Finish())
+}
+
+// Stall monitor for everything that runs under par(): every worker is locked to an OS thread
+// and notes the thread CPU time at the start of each case; a case whose thread has consumed
+// more than the limit of CPU time without returning is reported as a violation (a library call
+// that spins never returns an error the oracles could judge, and would otherwise hang the
+// check).  CPU time of the worker's own thread, not wall-clock time, so a loaded machine does
+// not trigger it.  The largest per-case CPU time observed goes into the evidence
+// (max_case_cpu_s) to show the margin.
+type parWorker struct {
+	tid   int32
+	start int64
+	idx   int64
+	busy  int32
+}
+
+var (
+	curCtx       *ev.Ctx
+	parWorkers   sync.Map // tid -> *parWorker
+	caseLabels   sync.Map // tid -> string
+	maxCaseTicks int64
+)
+
+// noteCase records the id of the case the calling worker is about to run.
+func noteCase(id string) { caseLabels.Store(int32(syscall.Gettid()), id) }
+
+func stallLimitS(c *ev.Ctx) int64 {
+	if s := os.Getenv("VERIF_STALL_S"); s != "" {
+		if v, err := strconv.Atoi(s); err == nil && v > 0 {
+			return int64(v)
+		}
+	}
+	if c.Tier == "thorough" {
+		return 900
+	}
+	return 240
+}
+
+func stallWatch(c *ev.Ctx) {
+	lim := stallLimitS(c) * 100
+	for {
+		time.Sleep(2 * time.Second)
+		parWorkers.Range(func(_, v any) bool {
+			w := v.(*parWorker)
+			if atomic.LoadInt32(&w.busy) == 0 {
+				return true
+			}
+			t, st := threadTicks(w.tid), atomic.LoadInt64(&w.start)
+			if t < 0 || st < 0 || t-st <= lim {
+				return true
+			}
+			id := fmt.Sprintf("par-index-%d", atomic.LoadInt64(&w.idx))
+			if l, ok := caseLabels.Load(w.tid); ok {
+				id = l.(string)
+			}
+			c.Violation("cpu-stall", map[string]any{"case_id": id, "what": fmt.Sprintf("case %s: the library calls of this case consumed more than %d s of thread CPU time without returning (spinning call); the check cannot continue", id, lim/100)})
+			os.Exit(c.Finish())
+			return false
+		})
+	}
 }
 
 // want tells a check whether the case with this id is to be run: always in a
@@ -119,12 +184,30 @@ func par(n int, f func(i int)) {
 		wg.Add(1)
 		go func() {
 			defer wg.Done()
+			runtime.LockOSThread()
+			defer runtime.UnlockOSThread()
+			pw := &parWorker{tid: int32(syscall.Gettid())}
+			parWorkers.Store(pw.tid, pw)
+			defer parWorkers.Delete(pw.tid)
 			for {
 				i := int(atomic.AddInt64(&next, 1))
 				if i >= n {
 					return
 				}
+				t0 := threadTicks(pw.tid)
+				atomic.StoreInt64(&pw.idx, int64(i))
+				atomic.StoreInt64(&pw.start, t0)
+				atomic.StoreInt32(&pw.busy, 1)
 				f(i)
+				atomic.StoreInt32(&pw.busy, 0)
+				if d := threadTicks(pw.tid) - t0; t0 >= 0 {
+					for {
+						m := atomic.LoadInt64(&maxCaseTicks)
+						if d <= m || atomic.CompareAndSwapInt64(&maxCaseTicks, m, d) {
+							break
+						}
+					}
+				}
 			}
 		}()
 	}
